@@ -537,8 +537,11 @@ def sp_interp1d(interp, st, fr, args, kw):
     if isinstance(y, Quantity):
         y = y.value
     xs, xf, _ = npm.info(st, x)
-    st.oblige('safe.interp1d_x_increasing', Forall([xs[0], xs[0]], lambda k, l: implies(compare('<', k, l), compare('<', xf((k,)), xf((l,)))), name='increasing'), kind='safe')
+    inc = Forall([xs[0], xs[0]], lambda k, l: implies(compare('<', k, l), compare('<', xf((k,)), xf((l,)))), name='increasing')
+    st.oblige('safe.interp1d_x_increasing', inc, kind='safe')
     st.oblige('safe.interp1d_two_points', compare('>=', xs[0], 2), kind='safe')
+    # once obliged, the facts may be used on the rest of the path (assert-then-assume)
+    st.assume([inc, compare('>=', xs[0], 2)])
     return Interp1d(x, y, kw.get('bounds_error', True), kw.get('fill_value'))
 
 
@@ -574,7 +577,17 @@ def call_interp1d(interp, st, fr, f, args, kw):
     qs, qf, _ = npm.info(st, xn)
     if len(qs) != 1:
         raise Unsupported("interp1d called with a non 1-d argument")
-    if f.bounds_error:
+    if f.bounds_error and getattr(interp, 'interp1d_outside', None) == 'raise':
+        # scipy raises ValueError for an argument outside the table: modelled as that exception (the contract of
+        # the function under verification says whether it may propagate)
+        rs = st.fork()
+        rs.assume_pc(Sc(fresh_bool('outside_table')))
+        rs.status = 'raise'
+        rs.exc = ('ValueError', 'A value in x_new is outside the interpolation range', 0)
+        rs.path += 'O'
+        interp._pending_forks.append(rs)
+        st.assume(Forall([qs[0]], lambda q: band(compare('>=', qf((q,)), xf((0,))), compare('<=', qf((q,)), xf((nm1,)))), name='inside'))
+    elif f.bounds_error:
         # outside the table scipy raises ValueError: in-range is an obligation at the call
         st.oblige('call.interp1d/pre.inside_table', Forall([qs[0]], lambda q: band(compare('>=', qf((q,)), xf((0,))), compare('<=', qf((q,)), xf((nm1,)))), name='inside'), kind='pre')
     return PureArr((ys[0], qs[0]), lambda idx: G(idx[0], qf((idx[1],))), 'real')
@@ -1415,3 +1428,17 @@ def mpl_linecollection(interp, st, fr, args, kw):
 
 EXT['numpy.asarray'] = EXT['numpy.array']
 EXT['numpy.asanyarray'] = EXT['numpy.array']
+
+
+@model('numpy.sort')
+def np_sort(interp, st, fr, args, kw):
+    """np.sort(x) for a 1-d array: x gathered by np.argsort(x)"""
+    x = _arr(interp, st, args[0])
+    unit = None
+    if isinstance(x, Quantity):
+        unit, x = x.unit, x.value
+    order = np_argsort(interp, st, fr, [x], {})
+    _, ofn, _ = npm.info(st, order)
+    shape, fn, kind = npm.info(st, x)
+    res = PureArr(tuple(shape), lambda idx: fn((ofn((idx[0],)),)), kind)
+    return Quantity(res, unit) if unit is not None else res
